@@ -194,6 +194,17 @@ pub fn judge(scn: &Scenario, res: &ExecResult, _base: Option<&ExecResult>) -> Ve
                 let ni = item.node;
                 let nt = &res.nodes[ni];
                 let Some(a) = nt.actions.iter().find(|a| a.round == item.round && a.action == item.action) else { continue };
+                // a repeated call for a peer this session has already disconnected (same handle or
+                // its sibling) is refused and changes nothing: the checks of the first call, which
+                // look at the end of the run, cover that
+                let owner = scn.owner_of(*handle);
+                let repeated = scn.script.iter().any(|o| o.node == item.node && o.round < item.round && matches!(o.action, Action::Disconnect { handle: h } if scn.owner_of(h) == owner));
+                if repeated {
+                    if a.res == R_OK {
+                        out.push(v("C07", "repeated-disconnect-accepted", ni, item.round, format!("disconnect_player({handle}) for an already disconnected peer returned Ok")));
+                    }
+                    continue;
+                }
                 if a.res != R_OK {
                     out.push(v("C07", "disconnect-player-failed", ni, item.round, format!("disconnect_player({handle}) returned {}", a.detail)));
                     continue;
@@ -489,6 +500,17 @@ pub fn c07() -> i32 {
                                     let mut s2 = s.clone();
                                     s2.script.insert(0, ScriptItem { round: r, node: 0, action: Action::Poll });
                                     s2.name = format!("{} polls-between-ticks", s2.name);
+                                    // an application that repeats the call a few ticks later (for
+                                    // the same handle, or for the other player of that peer): it is
+                                    // refused and nothing else may happen
+                                    if r % 2 == 0 || t {
+                                        let mut s3 = s.clone();
+                                        let h2 = *s.peers[1].locals.last().unwrap();
+                                        s3.script.push(ScriptItem { round: r + 3, node: 0, action: Action::Disconnect { handle: h2 } });
+                                        s3.horizon = r + 5;
+                                        s3.name = format!("{} and again disconnect_player({h2})@{}", s3.name, r + 3);
+                                        scns.push(s3);
+                                    }
                                     scns.push(s);
                                     scns.push(s2);
                                 }
